@@ -45,10 +45,14 @@ import (
 const c11FlagUnrelatedReach = false
 
 type c11obj struct {
-	kind    string // mapping | code | domain | client
-	name    string
-	id      string   // identifier used in requests (mapping id, code, domain mapping id)
-	idents  []string // every string that identifies or belongs to the object (ids, secrets, unique addresses)
+	kind   string // mapping | code | domain | client
+	name   string
+	id     string   // identifier used in requests (mapping id, code, domain mapping id)
+	idents []string // every string that identifies or belongs to the object (ids, secrets, unique addresses, names)
+	// nstrong: idents[:nstrong] are record ids and secrets, which only this object's records carry;
+	// the rest are names and addresses: a resource another object may come to hold once this one let go of
+	// it. Whose a stored key is follows the record ids it holds, never the name it is filed under.
+	nstrong int
 	parties map[int64]bool
 	sub     string // domain: subdomain
 	gone    bool   // deleted by a party through a command (the model follows permitted effects)
@@ -166,7 +170,7 @@ func init() {
 			"identity of a transport = what the handshake replies on that transport proved (issued id on first connect); U1's unanswered challenge proves nothing",
 			"a connection code is a bearer secret: an authenticated client presenting an unactivated code becomes a party to it by activating it",
 			"http_domain_get_base_domains and http_domain_gen_subdomain read no client-owned state and may be served to anyone; every other dispatched command (including ones added later) must not succeed on an unauthenticated connection",
-			"a change of a store key is attributed to the harness-known objects and client ids named in the key or in the changed part of the value; keys naming nobody (counters, global id lists) are not client-owned state",
+			"a change of a store key is attributed to the harness-known objects whose record ids or secrets, and to the clients whose ids, occur in the key or in the changed part of the value; a name (domain, address) alone does not make a key somebody's: a key filed under a name belongs to the record it points to; keys naming nobody (counters, global id lists) are not client-owned state",
 			"an authenticated client reaching an unrelated authenticated client through DNS forwarding is not forbidden by the property text and is not flagged (c11FlagUnrelatedReach=false)",
 		},
 		Opt: func(tier string) simrt.Options {
@@ -323,7 +327,7 @@ func c11Run(w *simrt.World, tier string) {
 	// every client's secret key belongs to that client alone
 	for _, cc := range []*c11conn{cA, cB, cS, cO, cT} {
 		if cc.cl.Secret != "" {
-			r.objs = append(r.objs, &c11obj{kind: "client", name: "secret." + cc.name, idents: []string{cc.cl.Secret}, parties: map[int64]bool{cc.id: true}})
+			r.objs = append(r.objs, &c11obj{kind: "client", name: "secret." + cc.name, idents: []string{cc.cl.Secret}, nstrong: 1, parties: map[int64]bool{cc.id: true}})
 		}
 	}
 
@@ -452,7 +456,7 @@ func (r *c11run) mkMapping(name string, listen, target int64, proto models.Proto
 		r.w.Violationf("C11:harness", "creating mapping %s failed: %v", name, err)
 		return nil
 	}
-	o := &c11obj{kind: "mapping", name: name, id: m.ID, idents: []string{m.ID, sk, taddr, laddr}, parties: map[int64]bool{}}
+	o := &c11obj{kind: "mapping", name: name, id: m.ID, idents: []string{m.ID, sk, taddr, laddr}, nstrong: 2, parties: map[int64]bool{}}
 	for _, id := range []int64{listen, target} {
 		if id != 0 { // 0 is "no client", never an identity
 			o.parties[id] = true
@@ -470,7 +474,7 @@ func (r *c11run) mkCode(name string, owner int64, n int, activator int64, mname 
 		r.w.Violationf("C11:harness", "creating code %s failed: %v", name, err)
 		return
 	}
-	o := &c11obj{kind: "code", name: name, id: cc.Code, idents: []string{cc.Code, cc.ID, taddr}, parties: map[int64]bool{owner: true}}
+	o := &c11obj{kind: "code", name: name, id: cc.Code, idents: []string{cc.Code, cc.ID, taddr}, nstrong: 2, parties: map[int64]bool{owner: true}}
 	r.objs = append(r.objs, o)
 	if activator != 0 {
 		laddr := fmt.Sprintf("0.0.0.0:%d", 17000+n)
@@ -480,10 +484,11 @@ func (r *c11run) mkCode(name string, owner int64, n int, activator int64, mname 
 			return
 		}
 		o.parties[activator] = true
-		mo := &c11obj{kind: "mapping", name: mname, id: m.ID, idents: []string{m.ID, laddr}, parties: map[int64]bool{owner: true, activator: true}}
+		mo := &c11obj{kind: "mapping", name: mname, id: m.ID, idents: []string{m.ID}, nstrong: 1, parties: map[int64]bool{owner: true, activator: true}}
 		if m.SecretKey != "" {
-			mo.idents = append(mo.idents, m.SecretKey)
+			mo.idents, mo.nstrong = append(mo.idents, m.SecretKey), 2
 		}
+		mo.idents = append(mo.idents, laddr)
 		r.objs = append(r.objs, mo)
 	}
 }
@@ -495,7 +500,7 @@ func (r *c11run) mkDomain(name string, owner int64, sub string, n int) {
 		r.w.Violationf("C11:harness", "creating domain %s failed: %v", name, err)
 		return
 	}
-	r.objs = append(r.objs, &c11obj{kind: "domain", name: name, id: m.ID, sub: sub, idents: []string{m.ID, m.FullDomain, fmt.Sprintf("%s:%d", host, 7000+n)}, parties: map[int64]bool{owner: true}})
+	r.objs = append(r.objs, &c11obj{kind: "domain", name: name, id: m.ID, sub: sub, idents: []string{m.ID, m.FullDomain, fmt.Sprintf("%s:%d", host, 7000+n)}, nstrong: 1, parties: map[int64]bool{owner: true}})
 }
 
 func (r *c11run) ofKind(kind string) []*c11obj {
@@ -694,7 +699,7 @@ func (r *c11run) diff(a, b *c11snap) []c11change {
 		}
 		for _, o := range r.objs {
 			hit := false
-			for _, id := range o.idents {
+			for _, id := range o.idents[:o.nstrong] {
 				if c11has(text, id) {
 					hit = true
 				}
@@ -1232,8 +1237,11 @@ func (r *c11run) judge(cmds []*c11sent, before, after *c11snap, how string) {
 			if cc.id != 0 && o.parties[cc.id] || c.holdsFn(o) {
 				continue
 			}
-			for _, id := range o.idents {
+			for i, id := range o.idents {
 				if c11has(rt, id) && !c11has(c.reqText, id) {
+					if i >= o.nstrong && r.visibleTo(after, id, cc.id) {
+						continue // a name or address that a record of the receiver's own carries as well
+					}
 					if cc.id == 0 {
 						w.Violationf("C11:unauth:disclosed:"+rcvName(c), "an unauthenticated connection received %q of %s\n%s", id, o.name, detail())
 					} else {
@@ -1295,8 +1303,8 @@ func (r *c11run) judge(cmds []*c11sent, before, after *c11snap, how string) {
 			if cc.id != 0 && o.parties[cc.id] {
 				continue
 			}
-			for _, id := range o.idents {
-				sent := false
+			for i, id := range o.idents {
+				sent := i >= o.nstrong && r.visibleTo(after, id, cc.id)
 				for _, c := range cmds {
 					if c11has(c.reqText, id) {
 						sent = true
